@@ -424,7 +424,7 @@ func scrambleValue(v reflect.Value, depth int) {
 	}
 }
 
-func descVec(rec *recorder, class string, ds []*astits.Descriptor) []byte {
+func descVec(rec *recorder, class string, ds []*astits.Descriptor, writeOnly ...bool) []byte {
 	v := projDescriptors(ds)
 	var wb []byte
 	var n int
@@ -434,6 +434,11 @@ func descVec(rec *recorder, class string, ds []*astits.Descriptor) []byte {
 	}
 	e := M{"ev": "dvec", "class": class, "ds": v, "wb": ints(wb), "wn": n, "werr": errStr(err), "got": []M{}, "gerr": "none", "goff": -1,
 		"calc": int(astits.VerifCalcDescriptorsLength(ds))}
+	if len(writeOnly) > 0 && writeOnly[0] {
+		e["wonly"] = true // a value outside what a parser yields back unchanged (a language code that is not 3 bytes): the write direction only
+		rec.ev(e)
+		return wb
+	}
 	if err == nil {
 		var got []*astits.Descriptor
 		var off int
@@ -482,6 +487,25 @@ func runDesc(line []byte, rec *recorder) {
 			descVec(rec, sc.Tag, []*astits.Descriptor{d})
 		}
 	case "loops":
+		// loops of very many small descriptors (257 and more entries in a few hundred bytes)
+		for _, n := range []int{255, 256, 257, 300, 1000} {
+			var ds []*astits.Descriptor
+			for j := 0; j < n; j++ {
+				d := &astits.Descriptor{Tag: uint8(0x80 + r.intn(0x7f)), UserDefined: r.bytes(r.pick(0, 0, 1, 2))}
+				d.Length = uint8(len(d.UserDefined))
+				ds = append(ds, d)
+			}
+			descVec(rec, "loop-of-many", ds)
+		}
+		// language codes that are not 3 bytes long (what the parser leaves behind for a declared length of 3 or 8): padded or cut to 3 bytes on
+		// the wire, and every length follows the bytes written
+		for _, ln := range []int{0, 1, 2, 4, 7} {
+			d := &astits.Descriptor{Tag: astits.DescriptorTagISO639LanguageAndAudioType, Length: uint8(r.pick(4, 0, ln+1)),
+				ISO639LanguageAndAudioType: &astits.DescriptorISO639LanguageAndAudioType{Language: r.bytes(ln), Type: uint8(r.intn(4))}}
+			tail := randDescriptor(r, "streamid", 0)
+			setLength(tail, "correct", r)
+			descVec(rec, "language-not-3-bytes", []*astits.Descriptor{d, tail}, true)
+		}
 		for i := 0; i < sc.N; i++ {
 			var ds []*astits.Descriptor
 			for j, n := 0, r.pick(0, 1, 2, 3, 4); j < n; j++ {
